@@ -472,6 +472,22 @@ Proof.
   induction a as [|[k' v'] a IH]; [reflexivity|]. cbn. destruct (seqb k k') eqn:E; [exact IH|]. cbn. rewrite E. exact IH.
 Qed.
 
+Lemma lookup_insert_other k k' v a : seqb k k' = false -> lookup k (insert k' v a) = lookup k a.
+Proof.
+  intros H. induction a as [|[k2 v2] a IH]; cbn; [rewrite H; reflexivity|].
+  destruct (seqb k' k2) eqn:E; cbn.
+  - apply seqb_eq in E. subst k2. rewrite H. reflexivity.
+  - destruct (seqb k k2); [reflexivity|exact IH].
+Qed.
+Lemma lookup_merge_many k kvs : forall a,
+  lookup k (merge_many kvs a) = match last_val k kvs with Some v => Some (VStr v) | None => lookup k a end.
+Proof.
+  induction kvs as [|[k' v] r IH]; intros a; [reflexivity|]. cbn [merge_many last_val]. rewrite IH.
+  destruct (last_val k r); [reflexivity|]. destruct (seqb k k') eqn:E.
+  - apply seqb_eq in E. subst k'. apply lookup_insert.
+  - apply lookup_insert_other, E.
+Qed.
+
 Lemma effect_after_exec o l st m :
   res_ok (exec_leaf std_cfg o l st m) = true ->
   effect_seen l (content_of (res_msg (exec_leaf std_cfg o l st m))) = true.
@@ -480,6 +496,8 @@ Proof.
     try (rewrite lookup_insert; try apply seqb_refl; reflexivity);
     try (rewrite lookup_remove; reflexivity);
     try apply seqb_refl.
+  - apply forallb_forall. intros [k v] _. cbn [fst]. rewrite lookup_merge_many.
+    destruct (last_val k kvs); [apply seqb_refl|reflexivity].
   - change (tag ++ 58%N :: shown m) with (tag ++ [58%N] ++ shown m). rewrite app_assoc. apply prefixb_app.
   - change (tag ++ 91%N :: attr_val_str m k ++ [93%N]) with (tag ++ [91%N] ++ attr_val_str m k ++ [93%N]).
     rewrite app_assoc. apply prefixb_app.
